@@ -108,6 +108,11 @@ pub struct RunState {
     pub park_token: Vec<bool>, // per task id
     pub since_jump: u64,
     pub time_warps: u64,
+    /// fault: the process's standard output is stalled (a reader that does not read, or another
+    /// thread holding the stdout lock): whoever writes to it blocks for ever
+    pub stdout_stalled: bool,
+    /// tasks that are (conceptually) blocked for ever inside a write to the stalled stdout
+    pub blocked_on_stdout: Vec<u32>,
     // ---- process ----
     pub hook: Option<Hook>,
     pub hook_sets: u32,
@@ -148,6 +153,8 @@ impl RunState {
             park_token: Vec::new(),
             since_jump: 0,
             time_warps: 0,
+            stdout_stalled: false,
+            blocked_on_stdout: Vec::new(),
             hook: None,
             hook_sets: 0,
             hook_calls: 0,
@@ -286,4 +293,27 @@ pub fn wait_threads_exit() {
         }
         shuttle::thread::yield_now();
     }
+}
+
+/// Called by the interposed write(2) of the harness binary for fd 1 on a thread that runs a
+/// simulated process. Returns true if the write must be treated as "blocks for ever".
+pub fn stdout_write_blocks() -> bool {
+    let me = current_task();
+    try_with(|st| {
+        if st.stdout_stalled {
+            if !st.blocked_on_stdout.contains(&me) {
+                st.blocked_on_stdout.push(me);
+            }
+            true
+        } else {
+            false
+        }
+    })
+    .unwrap_or(false)
+}
+
+/// scenario side: stall the simulated process's stdout from now on
+pub fn stall_stdout() {
+    with(|st| st.stdout_stalled = true);
+    log(Kind::Fault, 9, 0);
 }
